@@ -65,7 +65,7 @@ POINTS = {
                       "raise ValueError(\"Invalid input: Values in 'x'"),
 }
 REQUIRED_POINTS = list(POINTS)
-REQUIRED_CLAUSES = ["independent-of-other-instances", "passes-through-points", "value==exact-interpolant",
+REQUIRED_CLAUSES = ["independent-of-other-instances", "history.answers==fresh-object", "passes-through-points", "value==exact-interpolant",
                     "derivative==exact", "forms-and-order-agree",
                     "refuse.outside-table", "refuse.duplicate-abscissa",
                     "root.found-inside-limits", "root.residual",
@@ -539,8 +539,73 @@ def case_conjunction(mon, seedval):
                    "functional_at_n": float(Pl(nl)) if inside else None})
 
 
+def case_objhistory(mon, seedval):
+    """One Interpolation object through a random sequence of loads (every
+    documented form of set()) and queries; after every load all its answers
+    must be, bit for bit, those of a fresh object built from the same data."""
+    from pymeeus.Interpolation import Interpolation as I
+    rng = random.Random(seedval)
+    obj = I([0.0, 1.0, 2.0, 4.0], [5.0, -6.0, 9.0, 1.0])
+    steps = []
+
+    def queries(o, xs, r2):
+        sx = sorted(xs)
+        qs = [r2.uniform(sx[0], sx[-1]) for _ in range(3)]
+        out = _answers(o, qs)
+        for f in (o.root, o.minmax):
+            a = r2.uniform(sx[0], sx[-1])
+            b = r2.uniform(sx[0], sx[-1])
+            try:
+                out.append(num(f(a, b)))
+            except Exception as ex:
+                out.append(type(ex).__name__)
+        return out
+
+    for _ in range(5):
+        mon.evals += 1
+        xs, ys, _k = gen_table(rng, for_roots=rng.random() < 0.6)
+        how = rng.choice(("two-lists", "two-tuples", "flat", "copy",
+                          "copy", "y-only"))
+        if how == "flat" and len(xs) < 2:
+            how = "two-lists"
+        qseed = rng.randrange(1 << 30)
+        try:
+            # the reference first, before the re-used object is loaded
+            xq = list(range(len(ys))) if how == "y-only" else xs
+            want = queries(I(list(xq), list(ys)), xq, random.Random(qseed))
+            if how == "two-lists":
+                obj.set(list(xs), list(ys))
+            elif how == "two-tuples":
+                obj.set(tuple(xs), tuple(ys))
+            elif how == "flat":
+                flat = []
+                for a, b in zip(xs, ys):
+                    flat += [a, b]
+                obj.set(*flat)
+            elif how == "copy":
+                obj.set(I(list(xs), list(ys)))
+            else:
+                obj.set(list(ys))
+                xs = list(range(len(ys)))
+            steps.append(how)
+            got = queries(obj, xs, random.Random(qseed))
+        except Exception as ex:
+            mon.dev("history.answers==fresh-object",
+                    {"seed": seedval, "steps": steps + [how],
+                     "raised": repr(ex)})
+            return
+        ok = got == want
+        mon.check("history.answers==fresh-object", ok,
+                  lambda: {"seed": seedval, "steps": list(steps), "x": xs,
+                           "y": ys, "reloaded_object": repr(got)[:300],
+                           "fresh_object": repr(want)[:300]})
+        if not ok:
+            return
+    mon.cls("object-with-history", ("hist", seedval), steps)
+
+
 CASES = {"table": case_table, "root": case_root,
-         "conjunction": case_conjunction}
+         "conjunction": case_conjunction, "objhistory": case_objhistory}
 
 
 def directed(mon):
@@ -588,6 +653,10 @@ def run(mon, spec):
         qseed = rng.randrange(1 << 30)
         mon.begin("table", [xs, ys, kind, qseed])
         case_table(mon, xs, ys, kind, qseed)
+    for _ in range(max(20, spec["n_tab"] // 2)):
+        sv = rng.randrange(1 << 30)
+        mon.begin("objhistory", [sv])
+        case_objhistory(mon, sv)
     for _ in range(spec["n_root"]):
         xs, ys, kind = gen_table(rng, for_roots=True)
         sx = sorted(xs)
